@@ -1,11 +1,12 @@
 """C10 - re-running sign is a no-op; only planned PEM files are ever written."""
-from . import repo
+from . import repo, cli
 
 ASSUME = ["the directory is not touched between the two runs", "logical clock for modification times",
           "projection and snapshot comparison (bytes and mtime of every file) are trusted"]
 
 
 def run(ctx, replay=None):
+    extra = cli.judge_cli(ctx, "C10")
     inv = ["TypeInv", "Idempotent", "ConvergedAfterDefault"]
     if ctx.quick:
         mc = [dict(shape="chain", max_env=2, flagsets="NoAllFlagSets", invariants=inv, properties=[])]
@@ -15,4 +16,4 @@ def run(ctx, replay=None):
         ex = [dict(shape="chain", max_env=3, flags="m,c,o,e", faults=False),
               dict(shape="star", max_env=2, flags="m,c,o,e", faults=False),
               dict(shape="two", max_env=2, flags="m,c,o,e", faults=False)]
-    return repo.run_lifecycle(ctx, "C10", mc, ex, "model_checking", ASSUME, replay)
+    return repo.run_lifecycle(ctx, "C10", mc, ex, "model_checking", ASSUME, replay, extra_cov=extra)
